@@ -121,6 +121,13 @@ func runC09(c *Ctx) {
 			maxLen = m
 		}
 		cfg := asm.Config{Dialect: d, CoreSize: m, Length: maxLen, Processes: 8, Distance: 0}
+		if m > 1<<30 && r.Chance(1, 2) {
+			// the maximum length is a limit, not a size: on a huge core it may be huge as well
+			cfg.Length = []int{1 << 31, 1 << 40, 1 << 50, m / 2, m}[r.Intn(5)]
+			if cfg.Length > m {
+				cfg.Length = m
+			}
+		}
 		gc := gcfg(cfg, []g.SimulatorMode{g.ICWS94, g.NOP94}[r.Intn(2)])
 		code, start := genWarrior(r, idx, d, m, maxLen)
 		spell := r.Intn(4)
